@@ -320,7 +320,7 @@ def e2_op_strategies(nparts, ngroups, profile):
         if ngroups else st.none()
     ops_app_placeholder = st.tuples(
         st.just('app'), st.sampled_from(PROIDS), st.integers(0, 2),
-        vec(0, 2), st.just(None), st.none(), st.none(), st.none(),
+        vec(0, 2), st.just(None), st.none(), st.none(), group,
         st.just([]), st.just(False), st.just(1), st.integers(0, 7)).map(list)
     ops = {
         'app': st.tuples(
@@ -401,6 +401,32 @@ def e2_op_strategies(nparts, ngroups, profile):
         'rmsrvrace': st.tuples(ops_app_placeholder, idx)
         .map(lambda t: ['macro', [t[0], ['ev'], ['ev'], ['rmsrv', t[1]],
                                   ['sched']]]),
+        # a server flaps with a changed record, then fails again much later
+        'flap': st.tuples(st.just('flap'), idx, e2_server_spec(nparts),
+                          st.sampled_from([3601, 86401, 90000])).map(list),
+        # macro: a server bounces and is moved to another rack
+        'bouncemove': st.tuples(idx, st.integers(0, 8))
+        .map(lambda t: ['macro', [['reboot', t[0], None],
+                                  ['reparent', t[0], t[1]], ['cycle']]]),
+        # macro: churn, then the group is resized while no master looks, and
+        # a new master starts
+        'idgrestart': st.tuples(idx, ops_app_placeholder, st.integers(0, 1),
+                                st.integers(0, 3))
+        .map(lambda t: ['macro', [['rm', t[0]], t[1], ['cycle'],
+                                  ['idg', t[2], t[3]], ['restart'],
+                                  ['cycle']]]),
+        # macro: allocations change, then a publication step is crashed
+        'allocscrash': e2_allocs(nparts)
+        .map(lambda a: ['macro', [['allocs', a], ['crashcycle']]]),
+        # macro: two requests about one placed instance race through
+        # different watches (priority change, then delete)
+        'priorm': st.tuples(idx, st.sampled_from([0, 5, 50]))
+        .map(lambda t: ['macro', [['prio', t[0], t[1]], ['rmlast']]]),
+        # macro: a loaded server shrinks so that not everything fits any more
+        'shrink': st.tuples(idx, vec(0, 3), st.integers(0, 7))
+        .map(lambda t: ['macro', [['resize', t[0], t[1], t[2]]] +
+                        [[extra] for extra in profile.get('after_shrink',
+                                                          ['cycle'])]]),
         'stalemark': st.tuples(idx, st.lists(idx, min_size=1, max_size=2),
                                idx)
         .map(lambda t: ['macro', [['state', t[0], 'frozen', t[1]],
@@ -419,7 +445,8 @@ def e2_op_strategies(nparts, ngroups, profile):
 E2_WEIGHTS = {
     'app': 10, 'rm': 2, 'rmlast': 1, 'finish': 1, 'prio': 1, 'srv': 1, 'rmsrv': 1,
     'down': 2, 'up': 2, 'downseq': 0, 'downrestart': 0, 'freezeflip': 0,
-    'stalemark': 0, 'rmsrvrace': 0,
+    'stalemark': 0, 'rmsrvrace': 0, 'priorm': 0, 'shrink': 0, 'flap': 0,
+    'bouncemove': 0, 'idgrestart': 0, 'allocscrash': 0,
     'reboot': 1, 'resize': 1, 'shave': 1, 'repart': 1, 'reparent': 1,
     'state': 1, 'allocs': 1, 'idg': 1, 'rmidg': 1, 'bl': 1, 'blackout': 1,
     'cellev': 1, 'running': 1, 'adv': 2, 'adv_ret': 1, 'tickreboots': 1,
